@@ -611,7 +611,12 @@ func c16(g *Gen) {
 		if dcCrossed {
 			npk = 2 + g.R.Intn(2)
 		}
+		dcSuffix = i%8 == 5
+		if dcSuffix && npk < 2 {
+			npk = 2
+		}
 		prog, cls := g.genDeepcopyProgram(prefix, npk, i%2 == 1)
+		dcSuffix = false
 		dcForce = ""
 		if dcCrossed {
 			cls = append(cls, "several-input-packages-paths-and-names-sort-differently")
@@ -714,7 +719,9 @@ func c16(g *Gen) {
 							if strings.HasPrefix(line, "type ") {
 								rest = strings.Join(strings.Fields(line)[2:], " ")
 							}
-							for _, tok := range strings.FieldsFunc(rest, func(r rune) bool { return !(r == '.' || r == '_' || r >= '0' && r <= '9' || r >= 'a' && r <= 'z' || r >= 'A' && r <= 'Z') }) {
+							for _, tok := range strings.FieldsFunc(rest, func(r rune) bool {
+								return !(r == '.' || r == '_' || r >= '0' && r <= '9' || r >= 'a' && r <= 'z' || r >= 'A' && r <= 'Z')
+							}) {
 								if tok == mention && cur != marked && !arrayRefTypes[cur] {
 									arrayRefTypes[cur] = true
 									changed = true
